@@ -138,6 +138,34 @@ func isModPath(p string) bool { return p == Mod || strings.HasPrefix(p, Mod+"/")
 // Func resolves a function or method by package-relative path and name.
 // name is "F", "T.M" or "(*T).M".  Returns nil when it does not resolve.
 func (w *World) Func(rel, name string) *ssa.Function {
+	if f := w.funcExact(rel, name); f != nil {
+		return f
+	}
+	// Fallback: the anchor was moved to another receiver (or turned from a method into a function
+	// or back).  If exactly one declared function or method of the package carries the name, it is
+	// the anchor.
+	p := w.Pkg(rel)
+	if p == nil {
+		return nil
+	}
+	mn := name
+	if i := strings.LastIndex(mn, "."); i >= 0 {
+		mn = mn[i+1:]
+	}
+	var found []*ssa.Function
+	for _, fn := range w.ModuleFuncs() {
+		if fn.Parent() != nil || fn.Pkg != p || fn.Name() != mn || fn.Synthetic != "" {
+			continue
+		}
+		found = append(found, fn)
+	}
+	if len(found) == 1 {
+		return found[0]
+	}
+	return nil
+}
+
+func (w *World) funcExact(rel, name string) *ssa.Function {
 	p := w.Pkg(rel)
 	if p == nil {
 		return nil
